@@ -177,6 +177,15 @@ func (e *Exec) callInvoke(fr *Frame, st *State, cc *ssa.CallCommon, recv Val, ar
 // noteSucc: succeeded("key") for calls answered by a library model (contract applications and the
 // library default keep the flag themselves): did the call return a nil error?
 func (e *Exec) noteSucc(st *State, key string, res Val, sig *types.Signature) {
+	if e.lastretNamed[key] && sig != nil && sig.Results().Len() > 0 {
+		first := res
+		if res.Tuple != nil {
+			first = res.Tuple[0]
+		}
+		if first.T != "" {
+			e.hset(st, e.heapMap("GS_ret."+sanitize(key), e.sc.sortOf(sig.Results().At(0).Type())), first.T)
+		}
+	}
 	if !e.succNamed[key] || sig == nil || sig.Results().Len() == 0 {
 		return
 	}
@@ -1196,7 +1205,9 @@ func (e *Exec) builtinCall(fr *Frame, st *State, name string, args []Val, cc *ss
 		}
 		return Val{T: "nil_iface", Typ: types.NewInterfaceType(nil, nil)}
 	case "close":
-		e.sc.used["close(chan) is a no-op in the model (no channel model)"] = true
+		// no channel model; the call itself is visible to called("close") / calls("close")
+		e.sc.used["close(chan) has no effect in the model (no channel model); only the fact that it is called can be stated"] = true
+		e.countCall(st, "close")
 		return Val{T: "0"}
 	case "min", "max":
 		op := "<="
